@@ -49,7 +49,7 @@ def run(ctx):
     if len(files) < 100:
         ctx.inconc("seed corpus too small: %d" % len(files))
         return
-    n = ctx.n(2400, 400000)
+    n = ctx.n(480, 200000)
     ctx.cov["rule"] = ("execution = (seed file, mutation kind, tool in {mfront x interface, mfront-query x 2 queries}); distinct = distinct sha1 of the "
                        "mutated input + command line; non-trivial = the input differs from its seed file")
     ctx.cov.update({"seed_files": len(files), "dsls": len(dsls), "dictionary_keywords": len(dictionary)})
